@@ -205,6 +205,11 @@ class Engine:
             return z3.If(val.t, z3.Const("const_True", PyObj), z3.Const("const_False", PyObj))
         if isinstance(val, VRef):
             return z3.Function("py_obj_of_ref", I, PyObj)(val.t)
+        if isinstance(val, VExt):
+            return z3.Const("ext_%s" % _mangle(val.name), PyObj)
+        if isinstance(val, (VCList, VTuple)):
+            f = z3.Const("seq_%s" % _mangle(repr([repr(x) for x in val.items])), PyObj)
+            return f
         raise OutOfSubset("to_obj %r" % (val,))
 
     # list-subclass objects
@@ -224,10 +229,19 @@ class Engine:
             g.status, g.solver = "unsat", "simplify"
             s.goals.append(g)
             return g
-        hyps = [a for _, a in s.reg.axioms] + list(st.pc)
+        hyps = s.axioms_for(s.cur) + list(st.pc)
         g = Goal(s._gname(st, name), hyps, concl, kind, s.cur.key, getattr(node, "lineno", None), note)
         s.goals.append(g)
         return g
+
+    def axioms_for(s, c):
+        rv = set(getattr(c, "reveal", ()) or ())
+        out = []
+        for ax in s.reg.axioms:
+            tag = ax[2] if len(ax) > 2 else None
+            if tag is None or tag in rv:
+                out.append(ax[1])
+        return out
 
     def _gname(s, st, name):
         sig = hashlib.sha1(",".join(st.trace).encode()).hexdigest()[:8]
@@ -258,7 +272,7 @@ class Engine:
             if info.get("seq"):
                 return s.seq_len(st, v.t) > 0
             return z3.BoolVal(True)
-        if isinstance(v, (VFunc, VFile, VExt, VBound)):
+        if isinstance(v, (VFunc, VFile, VExt, VBound, VType)):
             return z3.BoolVal(True)
         if isinstance(v, VConst):
             return z3.BoolVal(bool(v.obj))
@@ -266,6 +280,8 @@ class Engine:
 
     def eq(s, a, b, st):
         """Python == as a BoolRef"""
+        if isinstance(a, VType) or isinstance(b, VType):
+            return s.is_(a, b, st)
         if isinstance(a, VNone) or isinstance(b, VNone):
             if isinstance(a, VNone) and isinstance(b, VNone):
                 return z3.BoolVal(True)
@@ -500,6 +516,14 @@ class Engine:
         raise OutOfSubset("compare op")
 
     def is_(s, a, b, st):
+        if isinstance(a, VType) or isinstance(b, VType):
+            from .calls import CLS_IDS
+            t, o = (a, b) if isinstance(a, VType) else (b, a)
+            if isinstance(o, VType):
+                return t.tag == o.tag
+            if isinstance(o, VExt) and o.name.startswith("class:"):
+                return t.tag == CLS_IDS[o.name[6:]]
+            return z3.BoolVal(False)
         if isinstance(a, VNone) and isinstance(b, VNone):
             return z3.BoolVal(True)
         if isinstance(a, VNone) or isinstance(b, VNone):
